@@ -342,6 +342,7 @@ template <class G> struct Runner {
     Reporter &rep;
     std::vector<long> weights;
     unsigned shard = 0, shards = 1, minEdges = 0, stride = 1, tailLen = 0;
+    int tailAt = -1;
     Runner(const std::string &p, const std::string &c, Reporter &r) : prop(p), cfgName(c), rep(r) {}
 
     void visit(const G &g, const Model &m, const std::string &howBuilt, const std::string &replay) {
@@ -361,6 +362,7 @@ template <class G> struct Runner {
         std::vector<std::tuple<unsigned, unsigned, long>> ins = ins0;
         if (tailLen > 0) {
             for (unsigned c = 0; c < n0; ++c) {
+                if (tailAt >= 0 && (unsigned)tailAt != c) continue; // a single tail: the bound grows by one tail only
                 unsigned prev = c;
                 for (unsigned t = 0; t < tailLen; ++t) { ins.emplace_back(prev, n, 0L); prev = n++; }
             }
@@ -659,6 +661,7 @@ template <class G> int runOne(const std::string &prop, const std::string &name, 
     run.shards = (unsigned)args.getInt("shards", 1);
     run.minEdges = (unsigned)args.getInt("minedges", 0);
     run.tailLen = (unsigned)args.getInt("tail", 0);
+    run.tailAt = (int)args.getInt("tailat", -1);
     if (run.tailLen) { rep.config += "/tail" + std::to_string(run.tailLen); run.cfgName = rep.config; }
     run.stride = (unsigned)args.getInt("stride", 1); // >1: every stride-th member of the enumeration (a fixed, seed-free subset; reported as a cap)
     if (run.stride > 1) rep.cap(rep.config + ": only every " + std::to_string(run.stride) + "-th element of the enumeration is visited");
